@@ -218,9 +218,26 @@ def unit(run, scope_files=None):
             dn = ("l", f.id, t["dest"]["l"]) if dty == "usize" and not t["dest"]["p"] else None
             # ---- seeds from std
             if BYTE_RESULT.match(c) and dn:
-                seed(dn, "Byte", "result of %s at %s" % (c.rsplit("::", 1)[-1], where))
+                # the length of a freshly formatted string is a display width, not an offset into source text
+                o_ = peel(f.origin_op(args[0])) if args else ("unknown",)
+                hops = 0
+                while o_[0] == "call" and (o_[1].get("callee") or "") in ("std::hint::must_use", "std::ops::Deref::deref", "std::string::String::as_str") and o_[1]["args"] and hops < 4:
+                    o_ = peel(f.origin_op(o_[1]["args"][0]))
+                    hops += 1
+                formatted = o_[0] == "call" and (o_[1].get("callee") or "") in ("std::fmt::format", "alloc::fmt::format")
+                if not formatted:
+                    seed(dn, "Byte", "result of %s at %s" % (c.rsplit("::", 1)[-1], where))
             if c in ("std::vec::Vec::<T, A>::len", "core::slice::<impl [T]>::len") and atys and CHAR_VEC_TY.search(atys[0]) and dn:
                 seed(dn, "Char", "length of a Vec<char> at " + where)
+            if c in ("std::cmp::min", "std::cmp::max", "std::cmp::Ord::min", "std::cmp::Ord::max", "std::cmp::Ord::clamp") and dn:
+                for a in args:
+                    n_ = opnode(f, a)
+                    if n_:
+                        uf.union(dn, n_, "min/max at " + where)
+            if c in ("core::slice::<impl [T]>::len",) and atys and re.search(r"\[u8\]", atys[0]) and dn:
+                o_ = peel(f.origin_op(args[0]))
+                if o_[0] == "call" and (o_[1].get("callee") or "").endswith("as_bytes"):
+                    seed(dn, "Byte", "length of str::as_bytes() at " + where)
             if c == "std::iter::Iterator::count" and atys and "Chars" in atys[0] and dn:
                 seed(dn, "Char", "Chars::count at " + where)
             if c == "std::ops::Index::index" and len(args) == 2 and atys:
@@ -303,9 +320,17 @@ def unit(run, scope_files=None):
         n_classes += 1
         if len(units) > 1:
             n_conf += 1
-            b = [(n, w) for n, ss in members for (u, w) in ss if u == "Byte"][0]
-            c = [(n, w) for n, ss in members for (u, w) in ss if u == "Char"][0]
-            chain = uf.path(b[0], c[0])
+            bs = [(n, w) for n, ss in members for (u, w) in ss if u == "Byte"]
+            cs_ = [(n, w) for n, ss in members for (u, w) in ss if u == "Char"]
+            best = None
+            for c in cs_[:6]:
+                for b in bs[:40]:
+                    ch = uf.path(b[0], c[0])
+                    if ch and (best is None or len(ch) < len(best[2])):
+                        best = (b, c, ch)
+            if best is None:
+                best = (bs[0], cs_[0], uf.path(bs[0][0], cs_[0][0]))
+            b, c, chain = best
             fnames = sorted(set(_fn_of(x) for x in [b[0], c[0]] if _fn_of(x)))
             key = "UNIT|mixed|" + "|".join(fnames)
             run.violation(R, key, c[1].split(" at ")[-1].split(" ")[0] if " at " in c[1] else "-",
@@ -478,3 +503,36 @@ def span_shape(run):
         ok = any((t.get("resolved") or "").endswith("Report::wrap_in_parents") for bi, t in m.calls())
         run.check(ok, R, "SPAN|message-wrapped", m.loc(), "Report::message wraps the message in the parent stack",
                   "Report::message no longer wraps messages in the parent stack: inner errors lose the instruction/data element that caused them")
+
+
+def src_bind(run):
+    """line/column and excerpts are computed against the text of the file the span names: in diagn::report every
+    CharCounter is built from fileserver.get_str*(<that span's file_handle>)"""
+    R = "SRC"
+    prog = run.prog
+    n = 0
+    printers = prog.reachable_from(["diagn::report::Report::print_all"])
+    for f in prog.real_fns():
+        if not f.id.startswith("diagn::report::Report::") or f.id not in printers:
+            continue
+        for bi, t in f.calls():
+            if not (t.get("resolved") or "").endswith("CharCounter::<'a>::new"):
+                continue
+            n += 1
+            o = peel(f.origin_op(t["args"][0]))
+            hops = 0
+            while o[0] == "call" and (o[1].get("callee") or "") in ("std::ops::Deref::deref", "std::string::String::as_str", "std::convert::AsRef::as_ref", "std::borrow::Borrow::borrow") and hops < 4:
+                o = peel(f.origin_op(o[1]["args"][0]))
+                hops += 1
+            key = "SRC|%s" % f.id
+            ok = False
+            why = "the text does not come directly from FileServer::get_str*"
+            if o[0] == "call" and re.search(r"FileServer::get_str(_unwrap)?$", o[1].get("callee") or ""):
+                hargs = [describe_origin(f, f.origin_op(a)) for a in o[1]["args"]]
+                if any(d.endswith(".file_handle") or d == "var:file_handle" or "file_handle" in d for d in hargs):
+                    ok = True
+                else:
+                    why = "the file handle given to get_str* (%s) is not the span's file_handle" % hargs
+            run.check(ok, R, key, f.loc(t["span"]), "%s counts lines/columns in the text of the span's own file" % f.id,
+                      "%s builds its CharCounter from a text that is not provably the span's own file (%s): a message located in another file would be printed with that file's name but another file's line, column and excerpt" % (f.id, why))
+    run.floor(R, "CharCounter constructions in the report printer", n, 2)
